@@ -584,13 +584,26 @@ fn dies(exe: &Path, id: &str, tape: &[u8]) -> bool {
 	if std::fs::write(&p, tape).is_err() {
 		return false;
 	}
-	let st = std::process::Command::new(exe).args(["replay-raw", id]).arg(&p).stdout(std::process::Stdio::null()).stderr(std::process::Stdio::null()).status();
-	match st {
-		Ok(st) => {
-			use std::os::unix::process::ExitStatusExt;
-			st.signal().is_some()
+	let child = std::process::Command::new(exe).args(["replay-raw", id]).arg(&p).stdout(std::process::Stdio::null()).stderr(std::process::Stdio::null()).spawn();
+	let Ok(mut child) = child else { return false };
+	let start = std::time::Instant::now();
+	loop {
+		match child.try_wait() {
+			Ok(Some(st)) => {
+				use std::os::unix::process::ExitStatusExt;
+				return st.signal().is_some();
+			}
+			Ok(None) => {
+				// a candidate that runs for long is not a reproduction of the death
+				if start.elapsed() > std::time::Duration::from_secs(20) {
+					let _ = child.kill();
+					let _ = child.wait();
+					return false;
+				}
+				std::thread::sleep(std::time::Duration::from_millis(5));
+			}
+			Err(_) => return false,
 		}
-		Err(_) => false,
 	}
 }
 
